@@ -53,7 +53,7 @@ CHECKS["C09"] = dict(
   text="Breadth-first search to the depth bound over an alphabet of 87-207 operations from two root topologies, plain and mem-comparable PD codecs; after every operation all lookup results are checked for containment / gap-free coverage / grouping, the cache index for regression, and a Get for every key must converge to the true leader.",
   note="Trusted: mock cluster as ground truth (epochs patched to TiKV rules after split/merge), white-box accessors, background goroutines replaced by explicit explorer operations, back-off via the repo's skip-sleep failpoint.")
 CHECKS["C10"] = dict(
-  engine="envx", category="fault_enumeration", design="5/C10",
+  engine="envx", category="model_checking", design="5/C10",
   technique="exhaustive enumeration of fault scripts (all answer sequences up to length F from 21-33 answers, with success / repeat-last / cycle tails) x replica-read modes x commands x liveness x forwarding on the real RegionRequestSender with a scripted client",
   text="Every script of store answers up to the bound, for every configuration of the grid, is run through the real SendReqCtx; bounded attempts, back-off budget, genuine responses only, write commands never flagged replica/stale read, read-ts validation, retry marker and peer targeting are checked on every attempt.",
   note="Trusted: scripted client / liveness probe, the repo's skip-sleep failpoint for back-off (accounting stays real), deterministic jitter shim for config/retry/config.go; one SendReqCtx call per run.")
@@ -62,6 +62,27 @@ CHECKS["C20"] = dict(
   technique="explicit-state BFS over operation sequences of the real Backoffer (virtual clock and jitter as enumerated environment answers) against a reference accountant",
   text="All sequences up to the depth bound of Backoff kinds, per-call maxima, Clone/Fork/UpdateUsingForked/Reset, cancel/kill between and during sleeps, over two budgets and two weights, jitter in {min,max}; after each operation totals, per-kind accounting, error kind on exhaustion and sleep bounds are compared with an integer reference model.",
   note="Trusted: vtime/vrand shims injected by import rewriting of config/retry; excluded kind's cap lowered with the package's test setter so exhaustion is reachable; merge specified as copy onto the parent chain.")
+
+CHECKS["C07"] = dict(
+  engine="seqx", category="model_checking", design="5/C07",
+  technique="explicit-state BFS over operation sequences of the real KVUnionStore / BufferBatchGetter on both buffers against an ordered-map model with undo stack (dedup by canonical model state)",
+  text="All sequences to the depth bound of set/delete/get/batch-get/iter/iter-reverse/staging/release/cleanup/checkpoint/revert over an adversarial key pool, for every subset of the snapshot key pool and both buffer implementations; after each operation the whole observation set (all gets, batch-gets, iterators over all bound pairs) is compared with the model.",
+  note="Trusted: the map-backed snapshot, the reference model (rt/models/omap); KVTxn's read/write methods are one-line delegations to the driven objects.")
+CHECKS["C08"] = dict(
+  engine="seqx", category="model_checking", design="5/C08",
+  technique="explicit-state BFS over operation sequences of the real ART and RBT buffers, compared with each other and with a reference ordered map with staging/undo/flag rules; plus a fan-out grid crossing the 4/16/48/256 node sizes",
+  text="All sequences to the depth bound over several adversarial configurations (prefix-related keys, long shared prefixes, flag classes, value sizes at arena block boundaries, entry/buffer/key-length limits) and an exhaustive insertion/deletion grid; after each operation the observation set (Get, flags, iterators all bounds, snapshot reads, Len/Size/Dirty, InspectStage, SelectValueHistory, handles) is compared on ART, RBT and the model.",
+  note="Trusted: reference model (rt/models/omap) with a live checkpoint treated as a barrier; loud iterator failure demanded of ART only (RBT has no sequence check).")
+CHECKS["C11"] = dict(
+  engine="seqx", category="model_checking", design="5/C11",
+  technique="explicit-state BFS over raw-KV call sequences on the real rawkv.Client over mocktikv, times deviation-bounded enumeration of topology changes injected before each RPC, against a sorted-map model",
+  text="All sequences to the depth bound over an alphabet of 230 calls (all bound pairs, limits, duplicates, key-only, CAS, checksum) on every layout of two split keys; before any RPC of a call one (quick) or two (thorough) topology changes (split, merge, leader transfer) may be injected; every call result and a full observation set are compared with the model.",
+  note="Trusted: mocktikv raw handlers (TTL / key-only unsupported there, accepted as such), epochs patched to TiKV rules through white-box helpers, sorted-map model.")
+CHECKS["C15"] = dict(
+  engine="enum", category="model_checking", design="5/C15",
+  technique="exhaustive enumeration over the command catalogue discovered by reflection x fields x keyspace ids x modes on the real codec (marker filling, prefix/strip classification), plus differential exhaustive workloads under v1 / two keyspaces on one store",
+  text="Every command type (53, found by probing), every byte / nested field reachable by reflection, both codec modes and 3-8 keyspace ids: key-like fields must be prefixed on encode and stripped on decode, ranges clamped to the keyspace, region descriptions clipped; AttachContext / GenRegionErrorResp / batch conversion hold for every command; raw and transactional op sequences (depth 3-4) give identical results under v1, keyspace A and keyspace B and never leak across keyspaces.",
+  note="Trusted: key-likeness decided by field name; documented exclusions (deprecated fields, stream responses, Compact) listed in the evidence; differential part uses single-region mocktikv.")
 
 PENDING = {}
 for p in ALL:
@@ -80,10 +101,10 @@ def main():
       "add_only": True,
      },
      "engines": [
-      {"name": "enum", "path": "harness/c19", "serves_properties": ["C19"], "kind_free_text": "bounded exhaustive input enumeration against laws/reference decoders"},
+      {"name": "enum", "path": "harness/c19", "serves_properties": ["C15", "C19"], "kind_free_text": "bounded exhaustive input enumeration against laws/reference decoders"},
       {"name": "envx", "path": "harness/c10", "serves_properties": ["C10"], "kind_free_text": "deviation-bounded enumeration of environment answers (fault scripts) on sequential code"},
       {"name": "parksched", "path": "rt/sched", "serves_properties": ["C01", "C02", "C03", "C04", "C06"], "kind_free_text": "controlled scheduler for real goroutines parked at seam points + deviation-bounded stateless DFS (preemption / fault budgets), replay by event identity, sharded over worker processes"},
-      {"name": "seqx", "path": "harness/c17", "serves_properties": ["C09", "C17", "C20"], "kind_free_text": "explicit-state BFS over operation sequences of real objects against a reference model"},
+      {"name": "seqx", "path": "harness/c17", "serves_properties": ["C07", "C08", "C09", "C11", "C17", "C20"], "kind_free_text": "explicit-state BFS over operation sequences of real objects against a reference model"},
      ],
      "checks": [],
      "not_applicable": [],
